@@ -89,17 +89,22 @@ func (e *emitter) db(s *dbSnap) string {
 }
 
 func (e *emitter) files(fs []string) []string {
-	var out []string
+	var ids []int
 	for _, f := range fs {
-		out = append(out, fmt.Sprint(e.mid(f)))
+		ids = append(ids, e.mid(f))
+	}
+	sort.Ints(ids)
+	var out []string
+	for _, i := range ids {
+		out = append(out, fmt.Sprint(i))
 	}
 	return out
 }
 
 func (e *emitter) machine(s *dbSnap, files []string) string {
 	var st []string
-	for _, f := range files {
-		st = append(st, fmt.Sprintf("(%d, [0])", e.mid(f)))
+	for _, f := range e.files(files) {
+		st = append(st, fmt.Sprintf("(%s, [0])", f))
 	}
 	return fmt.Sprintf("(mkM %s %s None)", jl(st), e.db(s))
 }
@@ -164,6 +169,22 @@ func newRows(ref *refRun, mb uint64) []snapRow {
 
 // ---- events -> model steps ----
 func (e *emitter) steps(ev []event, ref *refRun) []string {
+	// parallel store writes arrive in any order: emit each run of writes in token order
+	ev = append([]event{}, ev...)
+	for i := 0; i < len(ev); {
+		j := i
+		for j < len(ev) && (ev[j].K == "set" || ev[j].K == "del") && ev[j].K == ev[i].K && len(ev[j].Args) == 1 {
+			j++
+		}
+		if j > i+1 {
+			run := ev[i:j]
+			sort.SliceStable(run, func(a, b int) bool { return e.mid(run[a].Args[0]) < e.mid(run[b].Args[0]) })
+		}
+		if j == i {
+			j++
+		}
+		i = j
+	}
 	var out []string
 	u := func(s string) uint64 { v, _ := strconv.ParseUint(s, 10, 64); return v }
 	for _, x := range ev {
@@ -173,7 +194,18 @@ func (e *emitter) steps(ev []event, ref *refRun) []string {
 		case "commit":
 			out = append(out, "SCommit")
 		case "rollback":
-			out = append(out, "SRead") // a rolled back transaction leaves no trace
+			// a rolled back transaction leaves no trace in the database: its begin and statements become reads
+			// (store calls inside it are real and stay)
+			for i := len(out) - 1; i >= 0; i-- {
+				if out[i] == "SBegin" {
+					out[i] = "SRead"
+					break
+				}
+				if strings.HasPrefix(out[i], "SStmt") {
+					out[i] = "SRead"
+				}
+			}
+			out = append(out, "SRead")
 		case "begin-r", "end-r", "stmt-err", "list":
 			out = append(out, "SRead")
 		case "set":
@@ -223,8 +255,13 @@ func (e *emitter) steps(ev []event, ref *refRun) []string {
 					st(fmt.Sprintf("StMark %d", e.mid(m.IID)))
 				}
 			case "DeleteMessages":
+				var toks []int
 				for _, a := range x.Args {
-					st(fmt.Sprintf("StDeleteMsg %d", e.mid(a)))
+					toks = append(toks, e.mid(a))
+				}
+				sort.Ints(toks)
+				for _, t := range toks {
+					st(fmt.Sprintf("StDeleteMsg %d", t))
 				}
 			case "CreateMailbox":
 				if len(x.Args) == 1 {
@@ -252,8 +289,13 @@ func (e *emitter) steps(ev []event, ref *refRun) []string {
 			case "SetMailboxSubscribed", "UpdateRemoteMailboxID", "SetMailboxUIDValidity":
 				st(fmt.Sprintf("StSetMeta %d 0", u(x.Args[0])))
 			case "AddFlagToMessages", "RemoveFlagFromMessages", "SetFlagsOnMessages", "SetMailboxMessagesDeletedFlag":
+				var toks []int
 				for _, a := range x.Args {
-					st(fmt.Sprintf("StSetFlags %d 0", e.mid(a)))
+					toks = append(toks, e.mid(a))
+				}
+				sort.Ints(toks)
+				for _, t := range toks {
+					st(fmt.Sprintf("StSetFlags %d 0", t))
 				}
 			default:
 				st("StNeutral")
@@ -280,12 +322,12 @@ func restrict(ref *refRun) *refRun {
 		out := &dbSnap{}
 		keepMb := map[uint64]bool{}
 		for _, mb := range s.Mb {
-			if strings.HasPrefix(mb.Name, ref.pfx) || strings.HasPrefix(mb.RID, ref.pfx) || (mbTrace[mb.IID] && false) {
+			if strings.HasPrefix(mb.Name, ref.pfx) || strings.HasPrefix(mb.RID, ref.pfx) || (mbTrace[mb.IID] && mb.RID == "GLUON-INTERNAL-RECOVERY-MBOX") {
 				keepMb[mb.IID] = true
 			}
 		}
 		for _, mb := range other.Mb {
-			if strings.HasPrefix(mb.Name, ref.pfx) || strings.HasPrefix(mb.RID, ref.pfx) {
+			if strings.HasPrefix(mb.Name, ref.pfx) || strings.HasPrefix(mb.RID, ref.pfx) || (mbTrace[mb.IID] && mb.RID == "GLUON-INTERNAL-RECOVERY-MBOX") {
 				keepMb[mb.IID] = true
 			}
 		}
@@ -472,29 +514,16 @@ func modelRename(e *emitter, ref *refRun) string {
 }
 
 func modelConnCreate(e *emitter, ref *refRun) string {
-	var msgs, rows []string
-	var created []snapMsg
-	for _, m := range ref.snapAfter.Ms {
-		found := false
-		for _, b := range ref.snapBefore.Ms {
-			if b.IID == m.IID {
-				found = true
-			}
-		}
-		if !found {
-			created = append(created, m)
-		}
-	}
-	// creation order = order of the items in the update = order of the store writes in the trace
-	order := map[string]int{}
+	// the new messages, chunk by chunk: one CreateMessages call per chunk of db.ChunkLimit, in item order
+	var chunks, rows []string
 	for _, x := range ref.events {
-		if x.K == "set" {
-			order[x.Args[0]] = len(order)
+		if x.K == "stmt" && x.N == "CreateMessages" {
+			var ch []string
+			for _, a := range x.Args {
+				ch = append(ch, fmt.Sprintf("(%d, [0])", e.mid(a)))
+			}
+			chunks = append(chunks, jl(ch))
 		}
-	}
-	sort.Slice(created, func(i, j int) bool { return order[created[i].IID] < order[created[j].IID] })
-	for _, m := range created {
-		msgs = append(msgs, fmt.Sprintf("(%d, [0])", e.mid(m.IID)))
 	}
 	for _, mb := range ref.snapAfter.Mb {
 		for _, r := range newRows(ref, mb.IID) {
@@ -517,7 +546,7 @@ func modelConnCreate(e *emitter, ref *refRun) string {
 		fmt.Sscanf(rows[j], "(%d,", &b)
 		return mbOrder[a] < mbOrder[b]
 	})
-	return fmt.Sprintf("(OpConnCreate %s %s)", jl(msgs), jl(rows))
+	return fmt.Sprintf("(OpConnCreate %s %s)", jl(chunks), jl(rows))
 }
 
 func modelConnUpdate(e *emitter, ref *refRun) string {
@@ -566,4 +595,16 @@ func modelSessionEnd(e *emitter, ref *refRun) string {
 		}
 	}
 	return fmt.Sprintf("(OpSessionEnd %s)", jl(ids))
+}
+
+func modelAppendRecovered(e *emitter, ref *refRun) string {
+	mb := mbByRID(ref.snapBefore, "GLUON-INTERNAL-RECOVERY-MBOX")
+	if mb == nil {
+		return ""
+	}
+	nr := newRows(ref, mb.IID)
+	if len(nr) != 1 {
+		return ""
+	}
+	return fmt.Sprintf("(OpAppendRecovered %d %d %d [0])", mb.IID, nr[0].UID, e.mid(nr[0].Msg))
 }
